@@ -461,7 +461,7 @@ pub fn multi_from(v: &Value) -> R<MultiCase> {
 }
 
 fn fam_to(f: &KeyFamily) -> Value {
-    json!({"n": f.n, "fanout": f.fanout, "keylen": f.keylen, "seed": f.seed.to_string()})
+    json!({"n": f.n, "fanout": f.fanout, "keylen": f.keylen, "seed": f.seed.to_string(), "prefix_pairs": f.pairs})
 }
 fn fam_from(v: &Value) -> R<KeyFamily> {
     Ok(KeyFamily {
@@ -469,6 +469,7 @@ fn fam_from(v: &Value) -> R<KeyFamily> {
         fanout: get_u64(v, "fanout")? as u32,
         keylen: get_u64(v, "keylen")? as u32,
         seed: get_str(v, "seed")?.parse().map_err(|_| "seed")?,
+        pairs: v.get("prefix_pairs").and_then(|x| x.as_bool()).unwrap_or(false),
     })
 }
 
@@ -482,6 +483,7 @@ pub fn case_to(c: &Case) -> Value {
             "family": fam_to(&m.fam), "map": m.map, "registry": reg_to(&m.registry),
             "bufwriter_capacity": match m.bufcap { None => Value::Null, Some(c) => json!(c) },
             "checkpoint_every": m.every,
+            "sink": shape_to(&Some((m.shape, 0))),
         }}),
         Case::MemRead(m) => json!({"mem_read": {
             "n_small": m.n_small, "n_large": m.n_large, "fanout": m.fanout,
@@ -509,6 +511,7 @@ pub fn case_from(v: &Value) -> R<Case> {
             registry: reg_from(opt(x, "registry"))?,
             bufcap: opt(x, "bufwriter_capacity").map(|c| c.as_u64().unwrap_or(0) as usize),
             every: get_u64(x, "checkpoint_every")?,
+            shape: shape_from(opt(x, "sink"))?.map(|s| s.0).unwrap_or(Shape::Random { short_16: 2, intr_16: 1 }),
         }));
     }
     if let Some(x) = v.get("mem_read") {
